@@ -210,6 +210,17 @@ def check_packet_error_class(ctx):
                         ok = ctx.violation(rule, strm, st, 'numeric conversion %%%s applied to %s, which is not a stack offset: rendering may raise TypeError' % (cv, canon(a)), n.lineno)
             if ok:
                 ctx.holds(rule, strm, st, '%d conversions / %d arguments; numeric conversions on offsets only' % (len(conv), len(args)), n.lineno)
+    for n in ast.walk(strm.node):
+        if isinstance(n, ast.JoinedStr):
+            nfmt += 1
+            ok = True
+            for v in n.values:
+                if isinstance(v, ast.FormattedValue) and v.format_spec is not None:
+                    spec = ''.join(x.value for x in v.format_spec.values if isinstance(x, ast.Constant))
+                    if spec and spec[-1] in 'dxXobeEfFgGnc' and not (isinstance(v.value, ast.Name) and v.value.id in offset_vars) and not _is_int_expr(v.value):
+                        ok = ctx.violation(rule, strm, stmt_text(n)[:160], 'numeric format spec :%s applied to %s, which is not a stack offset' % (spec, canon(v.value)), n.lineno)
+            if ok:
+                ctx.holds(rule, strm, stmt_text(n)[:160], 'f-string: total; numeric specs on offsets only', n.lineno)
     ctx.unit('format_sites', nfmt)
     # __str__ must return on all paths and contain no raise
     if any(isinstance(n, ast.Raise) for n in ast.walk(strm.node)):
